@@ -395,6 +395,12 @@ func mergeContracts(dst, src *Contract) {
 	dst.UsesAtRet = append(dst.UsesAtRet, src.UsesAtRet...)
 	dst.Ghosts = append(dst.Ghosts, src.Ghosts...)
 	dst.Calls = append(dst.Calls, src.Calls...)
+	for k, v := range src.AtCall {
+		if dst.AtCall == nil {
+			dst.AtCall = map[string][]Clause{}
+		}
+		dst.AtCall[k] = append(dst.AtCall[k], v...)
+	}
 	for k, v := range src.LoopCalls {
 		if dst.LoopCalls == nil {
 			dst.LoopCalls = map[int][]string{}
